@@ -199,29 +199,20 @@ def traces_for_graph(g: fx.Graph, rng: random.Random) -> List[Dict[str, Any]]:
     return tr
 
 
-def run(rep: Report, tier: str) -> None:
-    rng = random.Random(common.seed() * 43 + 12)
-    torch.manual_seed(common.seed())
-    torch.set_num_threads(2)
-    quick = tier == "quick"
-    res = common.run_tlc("Prune_MC", "Prune_MC.cfg" if quick else "Prune_MC_3.cfg", coverage=True, timeout=2400, tag="prune")
-    common.tlc_must_pass(res, "Prune_MC")
-    rep.add_tlc(res)
-    for leg in ("toplevel_args_only", "toplevel_inputs_only"):
-        r = common.run_tlc("Prune_MC", f"Prune_MC_{leg}.cfg", timeout=300, tag="pruneleg")
-        common.tlc_must_fail(r, f"Prune Legacy={leg}")
-        rep.extra.setdefault("l2_refuted_deviations", []).append({"legacy": leg, "violated": r.violated_invariant})
-    traces: List[Dict[str, Any]] = []
-    n_graphs = 120 if quick else 1500
-    for i in range(n_graphs):
-        g = tracked_graph_direct(rng, rng.randint(1, 10), backward=rng.random() < 0.75)
-        t = traces_for_graph(g, rng)
-        traces += t
-        rep.case(("graph", i), nontrivial=len(list(g.nodes)) >= 5)
-    for v in range(3 if quick else 12):
-        g = tracked_graph_dynamo(rng, v)
-        traces += traces_for_graph(g, rng)
-        rep.case(("dynamo", v))
+def generate(gen: List[Any]) -> Tuple[List[Dict[str, Any]], int]:
+    """One self-contained case: gen = [family, case seed, (variant)]; recorded in every trace so that a replay re-creates it."""
+    crng = random.Random(gen[1])
+    if gen[0] == "direct":
+        g = tracked_graph_direct(crng, crng.randint(1, 10), backward=crng.random() < 0.75)
+    else:
+        g = tracked_graph_dynamo(crng, gen[2])
+    tr = traces_for_graph(g, crng)
+    for t in tr:
+        t["gen"] = gen
+    return tr, len(list(g.nodes))
+
+
+def judge(rep: Report, traces: List[Dict[str, Any]]) -> None:
     B = 1500
     for i in range(0, len(traces), B):
         batch = traces[i : i + B]
@@ -236,6 +227,27 @@ def run(rep: Report, tier: str) -> None:
                 continue
             rep.violation(f"{t['h']} (rtol={t['rtol']}, targets={t['targets']}): {clause}{' -- ' + t['err'] if t['err'] else ''}; graph targets={[n['tgt'] for n in t['g']]}",
                           t, key=f"{clause}:{t['h']}")
+
+
+def run(rep: Report, tier: str) -> None:
+    rng = random.Random(common.seed() * 43 + 12)
+    torch.manual_seed(common.seed())
+    torch.set_num_threads(2)
+    quick = tier == "quick"
+    res = common.run_tlc("Prune_MC", "Prune_MC.cfg" if quick else "Prune_MC_3.cfg", coverage=True, timeout=2400, tag="prune")
+    common.tlc_must_pass(res, "Prune_MC")
+    rep.add_tlc(res)
+    for leg in ("toplevel_args_only", "toplevel_inputs_only"):
+        r = common.run_tlc("Prune_MC", f"Prune_MC_{leg}.cfg", timeout=300, tag="pruneleg")
+        common.tlc_must_fail(r, f"Prune Legacy={leg}")
+        rep.extra.setdefault("l2_refuted_deviations", []).append({"legacy": leg, "violated": r.violated_invariant})
+    traces: List[Dict[str, Any]] = []
+    gens: List[List[Any]] = [["direct", rng.randrange(1 << 30)] for _ in range(120 if quick else 1500)] + [["dynamo", rng.randrange(1 << 30), v] for v in range(3 if quick else 12)]
+    for i, gen in enumerate(gens):
+        t, nn_ = generate(gen)
+        traces += t
+        rep.case((gen[0], i), nontrivial=nn_ >= 5)
+    judge(rep, traces)
     rep.extra["traces_by_helper"] = {h: sum(1 for t in traces if t["h"] == h) for h in ("non_float", "same_scale", "selected", "table")}
     rep.rule = "tracked graphs of random modules with 1-10 ops (direct backend; a few through TorchDynamo) x {non_float, same_scale x 3 rtols, selected x 2 random target sets}; graphs whose metrics sit within 1e-9 of an rtol threshold are skipped for that rtol; non-trivial = graphs with >= 5 nodes"
     if traces:
@@ -245,11 +257,14 @@ def run(rep: Report, tier: str) -> None:
 
 
 def replay(rep: Report, path: str) -> None:
+    """Re-creates the recorded graph (family + case seed) and re-runs every helper on it with the current code."""
     d = json.load(open(path))
     t = d["case"]
     rep.case("replay")
-    rep.case(json.dumps(t)[:200])
-    rep.sample({"h": t["h"], "targets": t["targets"]})
-    # the recorded input graph is re-validated against the spec; the real helper cannot be re-run from the projection alone,
-    # so the replay regenerates the same seeded graphs
-    run(rep, "quick")
+    rep.case(json.dumps(t.get("gen")))
+    rep.sample({"h": t["h"], "targets": t["targets"], "gen": t.get("gen")})
+    torch.set_num_threads(2)
+    if not t.get("gen"):
+        run(rep, "quick")
+        return
+    judge(rep, generate(t["gen"])[0])
